@@ -402,6 +402,8 @@ def axioms_summary(ass):
 # ---------------------------------------------------------------- differential
 def run_lines(exe, casefile, timeout=600, env=None):
     rc, out, err = run([exe, casefile], timeout=timeout, env=env)
+    if out == "":
+        return rc, [], err
     return rc, out.split("\n")[:-1] if out.endswith("\n") else out.split("\n"), err
 
 
@@ -436,6 +438,30 @@ def differential(harness_exe, driver_exe, cases, scratch, name="cases", timeout=
         start += k + 1
     while len(impl) < len(cases):
         impl.append("CRASH: not run")
+    # a case that died in the batch is run again on its own with a long watchdog: a slow case on a loaded machine is
+    # not a hang.  The CRASH result stands when any of the repeats dies too (the first such result is kept).
+    retried = 0
+    for i, a in enumerate(impl):
+        if not a.startswith("CRASH:") or retried >= 8:
+            continue
+        retried += 1
+        cf3 = os.path.join(scratch, name + ".one.txt")
+        with open(cf3, "w") as f:
+            f.write(cases[i] + "\n")
+        e2 = dict(env if env is not None else os.environ)
+        e2["VH_WATCHDOG"] = "90"
+        good = None
+        for _ in range(3):
+            rc, lines, err = run_lines(harness_exe, cf3, timeout=300, env=e2)
+            if rc == 0 and len(lines) == 1:
+                good = lines[0]
+            else:
+                good = None
+                impl[i] = "CRASH: rc=%s %s" % (rc, " ".join(err.strip().split("\n")[-12:])[:600])
+                break
+        if good is not None:
+            log("case %d died in the batch (%s) but ran to completion 3 times on its own; result of the single run used" % (i, a[:160]))
+            impl[i] = good
     bad = []
     for i, (c, a, b) in enumerate(zip(cases, impl, model)):
         if a != b:
